@@ -22,7 +22,9 @@ Inductive err :=
 | ESegLen        (* TaborException: segment shorter than 192 or not a multiple of 16 *)
 | EVoltage       (* ValueError: voltage out of range *)
 | EBadInput      (* input outside the modelled domain (missing channel, amplitude <= 0, inconsistent sample list) *)
-| ECrash         (* the real code would fail with an unexpected exception (leaf without waveform, RuntimeError) *)
+| ENoWaveform    (* TaborException: a sequence table entry has neither waveform nor children (repaired code; it was
+                    an AttributeError = ECrash before) *)
+| ECrash         (* the real code would fail with an unexpected exception (RuntimeError, IndexError) *)
 | EFuel.         (* loop fuel exhausted (model artefact) *)
 
 Inductive result (A : Type) := Ok (a : A) | Err (e : err).
@@ -324,7 +326,7 @@ Fixpoint parse_table (tbl : list wfdata) (children : list loop) (known : list (Z
   | [] => Ok ([], known)
   | c :: r =>
       match l_wf c with
-      | None => Err ECrash                                  (* None.get_subset_for_channels *)
+      | None => Err ENoWaveform                             (* _get_used_waveform: TaborException *)
       | Some w =>
           match cls_of tbl w with
           | None => Err EBadInput
@@ -530,7 +532,7 @@ Definition calc_segments (c : cfg) (tbl : list wfdata) (p : parsed) (advanced : 
 (* ------------------------------------------------------------------------------------------------------------- *)
 (* TaborProgram.__init__                                                                                           *)
 
-Definition fab_fuel : nat := 4000.
+Definition fab_fuel : nat := (200 * 200)%nat.   (* 40000; written as a product: no huge unary literal *)
 Definition prep_fuel : nat := 4000.
 
 (* ff / pf: fuel of the two restructuring loops (a model artefact; Proofs_term.v: both loops terminate, and with
